@@ -19,8 +19,9 @@ RULE = ('cases: client local settings drawn per key from boundary values (each k
         'sides (the model lets the server answer it) under the ledger and twin oracles. evaluations = executed '
         'steps; non-trivial = at least two non-default settings and the continuation opened a new stream in each '
         'direction or answered stream 1; distinct by trace')
-ASSUMPTIONS = ['HEADER_TABLE_SIZE stays 4096: the server sets the same non-default size on its hpack.Encoder twice (HTTP2-Settings, '
-               'then the SETTINGS frame), and hpack then drops the table-size update (trusted-base limitation, as in C13)',
+ASSUMPTIONS = ['HEADER_TABLE_SIZE stays 4096: with the Settings(initial_values=...) idiom the client\'s decoder keeps the default '
+               'limit until its SETTINGS frame is acknowledged, so a server encoder that follows the HTTP2-Settings value at once '
+               'is refused for a reason that is not what the property is about (the repeated-value case itself is F35, C13)',
                'MAX_HEADER_LIST_SIZE >= 8192, INITIAL_WINDOW_SIZE <= 2^20 and DATA frames <= 16384 '
                'bytes in the continuation: the Settings(initial_values=...) idiom leaves derived limits of the '
                'client stale until its SETTINGS frame is acknowledged, which is not what the property is about']
